@@ -354,10 +354,10 @@ def check_C11(tier):
 # C17: interpreter sessions with different hash seeds
 # ---------------------------------------------------------------------------------------------
 
-def session(mode, items, seed_value, work, tag):
+def session(mode, items, seed_value, work, tag, reverse=False):
     job = os.path.join(work, 'job-%s.json' % tag)
     out = os.path.join(work, 'out-%s.json' % tag)
-    json.dump({'repo': common.REPO, 'mode': mode, 'items': items}, open(job, 'w'))
+    json.dump({'repo': common.REPO, 'mode': mode, 'items': items, 'reverse': reverse}, open(job, 'w'))
     env = dict(os.environ)
     env['PYTHONHASHSEED'] = str(seed_value)
     env['PYTHONPATH'] = common.VERIF
@@ -375,7 +375,7 @@ def check_C17(tier):
     thorough = tier == 'thorough'
     work = common.scratch('key17')
     # values of two types (an int and a string): the typed part of a key must not depend on the spelling either
-    consts = base_consts(tier, {0, 2, 9}, sigs=None if thorough else {2, 6, 14, 26, 30, 34, 47}, pvals=None if thorough else {1, 5})
+    consts = base_consts(tier, {0, 2, 9}, sigs=None if thorough else {2, 6, 14, 26, 30, 34, 47}, pvals=None if thorough else {1, 3, 5})
     groups, cat_states = tlc_catalogue(consts, work)
     # a second, small catalogue: one- and two-parameter functions called with a long string (keys longer than 200
     # characters) and with an instance of a user class
@@ -410,7 +410,9 @@ def check_C17(tier):
     seeds = [0, 1, 'random']
     from concurrent.futures import ThreadPoolExecutor
     with ThreadPoolExecutor(max_workers=3) as ex:
-        sess = list(ex.map(lambda s: session('keys', items, s, work, 'k%s' % s), seeds))
+        # (the last session makes the calls of every group in the opposite order: a key must not depend on what the
+        # process happened to key before)
+        sess = list(ex.map(lambda s: session('keys', items, s, work, 'k%s' % s, reverse=(s == 'random')), seeds))
     # writer / reader sessions on persistent archives, for a sample of the items
     rng = random.Random(common.seed() + 17)
     arch_items = []
